@@ -137,7 +137,16 @@ func (g *gcmAsm) Open(dst, nonce, ciphertext, data []byte) ([]byte, error) {
 		panic("cipher: invalid buffer overlap")
 	}
 	if len(ciphertext) > 0 {
-		gcmSm4Dec(&g.bytesProductTable, out, ciphertext, &counter, &expectedTag, g.cipher.enc[:])
+		src := ciphertext
+		if r := len(src) % BlockSize; r != 0 && r+g.tagSize < BlockSize {
+			// The assembly loads a whole block at the final partial block and relies on
+			// the tag that follows it in memory. With a truncated tag that load would
+			// run past the end of the caller's slice: work on a padded copy.
+			buf := make([]byte, len(src)+BlockSize)
+			copy(buf, src)
+			src = buf[:len(src)]
+		}
+		gcmSm4Dec(&g.bytesProductTable, out, src, &counter, &expectedTag, g.cipher.enc[:])
 	}
 	gcmSm4Finish(&g.bytesProductTable, &tagMask, &expectedTag, uint64(len(ciphertext)), uint64(len(data)))
 
